@@ -1,0 +1,84 @@
+//go:build verif
+
+// Contracts for govc (/verif): C28 consensus operations form a serialized single-transaction chain.
+// Comment-only file. This part: kernel/self.go (batch guard and consensus reference rule).
+
+package kernel
+
+// LastConsensus(node): the snapshot that ReadLastConsensusSnapshotWithHack() yields while one snapshot is being
+// validated, i.e. the head of the recorded consensus chain (CONSENSUSSNAPSHOT records). The store is not part of
+// the modelled heap, so the head is an uninterpreted function of the node.
+//@ uninterp LastConsensus(node *Node) *common.Snapshot
+
+// Assumed (not verified): the store read behind it. The head is present (the mainnet pre-fork fallback computes one
+// when no record exists and panics for any other network), is a common-encoding snapshot and — as every snapshot
+// that reaches the store — carries at least one transaction. Explicit panics in it are storage failures (fatal by design).
+//@ assume func (node *Node) ReadLastConsensusSnapshotWithHack
+//@   requires node != nil
+//@   modifies nothing
+//@   ensures result0 == LastConsensus(node) && result0 != nil
+//@   ensures result0.Version == common.SnapshotVersionCommonEncoding && len(result0.Transactions) >= 1
+
+// The payload hash of the transaction under validation: PayloadHash() caches it in tx.hash and returns it.
+//@ spec ChainRule(node *Node, s *common.Snapshot, tx *common.VersionedTransaction) bool =
+//@     len(tx.References) >= 1 && len(LastConsensus(node).Transactions) == 1 &&
+//@     (LastConsensus(node).Transactions[0] == common.TxHash(tx) ||
+//@      (tx.References[0] == LastConsensus(node).Transactions[0] && s.Timestamp > LastConsensus(node).Timestamp))
+
+//@ func (node *Node) validateConsensusTransactionReferences
+//@   property C28
+//@   trustpre electSnapshotNode PayloadHash PayloadMarshal TransactionType -- preconditions owned by C29/C06/C05
+//@   requires node != nil && s != nil && common.VTxOK(tx)
+//@   panics when len(s.Transactions) > 1
+//@   modifies tx.hash, tx.pmbytes
+//@   ensures [chain] err == nil && common.ConsensusClass(old(common.VTxType(tx))) ==> ChainRule(node, s, tx)
+//@   ensures [others] !common.ConsensusClass(old(common.VTxType(tx))) ==> err == nil
+
+// ───────────── the per-class snapshot validators called by validateKernelSnapshot ─────────────
+// They decide election, hours, periods, amounts: other properties (C29, C34 …). For C28 only their frame matters. ASSUMED frames:
+// each may fill the hash/payload cache of tx (tx.PayloadHash()); besides that it writes only freshly allocated objects,
+// kernel-internal caches (validateNodeAcceptSnapshot may insert into node.chains) and the external store
+// (AddNodeOperation) — summarised as the ghost location `kernel_caches_and_store`, which no C28 clause reads.
+// None of them writes the snapshot s, the transaction payload (Inputs, Outputs, References, Extra) or the map `found`.
+//@ assume func (node *Node) validateMintSnapshot
+//@   maypanic
+//@   modifies tx.hash, tx.pmbytes, ghost kernel_caches_and_store
+//@ assume func (node *Node) validateNodePledgeSnapshot
+//@   maypanic
+//@   modifies tx.hash, tx.pmbytes, ghost kernel_caches_and_store
+//@ assume func (node *Node) validateNodeCancelSnapshot
+//@   maypanic
+//@   modifies tx.hash, tx.pmbytes, ghost kernel_caches_and_store
+//@ assume func (node *Node) validateNodeAcceptSnapshot
+//@   maypanic
+//@   modifies tx.hash, tx.pmbytes, ghost kernel_caches_and_store
+//@ assume func (node *Node) validateNodeRemoveSnapshot
+//@   maypanic
+//@   modifies tx.hash, tx.pmbytes, ghost kernel_caches_and_store
+// (*Node).validateCustodianUpdateNodes is under a verified contract (property C28, C34) in zz_contracts_c34_verif.go.
+
+// ───────────── validateKernelSnapshot ─────────────
+// found: the transactions of the snapshot that are locally known. Every entry was either read from the persistent
+// store or passed (*VersionedTransaction).Validate in validateSnapshotTransaction: element pointers are non-nil and
+// a mint-class transaction has exactly one input (validateMint).
+//@ spec FoundNonNil(found map[crypto.Hash]*common.VersionedTransaction) bool = forall h crypto.Hash :: has(found, h) ==> found[h] != nil
+//@ spec FoundElems(found map[crypto.Hash]*common.VersionedTransaction) bool = forall h crypto.Hash :: has(found, h) ==> common.VTxOK(found[h])
+//@ spec FoundMint(found map[crypto.Hash]*common.VersionedTransaction) bool = forall h crypto.Hash :: has(found, h) && common.VMintTx(found[h]) ==> len(found[h].Inputs) == 1
+//@ spec PreForkMainnet(node *Node, s *common.Snapshot, finalized bool) bool =
+//@     finalized && node.networkId.String() == config.KernelNetworkId && s.Timestamp < mainnetConsensusReferenceForkAt
+
+//@ func (node *Node) validateKernelSnapshot
+//@   property C28
+//@   trustpre electSnapshotNode PayloadHash PayloadMarshal TransactionType -- preconditions owned by C29/C06/C05
+//@   requires node != nil && s != nil && found != nil && len(s.Transactions) >= 1
+//@   requires FoundNonNil(found)
+//@   requires FoundElems(found)
+//@   requires FoundMint(found)
+//@   requires len(s.Transactions) == 1 ==> has(found, s.Transactions[0])
+//@   requires node.persistStore != nil
+//@   requires [custodian-available] forall ts uint64 :: ts > node.Epoch ==> CustodianAt(node.persistStore, ts) != nil
+//@       -- passed on to validateCustodianUpdateNodes (C34): genesis writes a custodian record at Epoch+1, records are never deleted
+//@   ensures [batch] err == nil && len(s.Transactions) > 1 ==> (forall h crypto.Hash :: has(found, h) ==> common.BatchableClass(common.VTxType(found[h])))
+//@   ensures [alone] err == nil && old(len(s.Transactions) == 1 && common.ConsensusClass(common.VTxType(found[s.Transactions[0]])) && !PreForkMainnet(node, s, finalized)) ==>
+//@       ChainRule(node, s, old(found[s.Transactions[0]]))
+//@   loop 0 invariant forall h crypto.Hash :: visited(h) ==> common.BatchableClass(common.VTxType(found[h]))
